@@ -23,6 +23,12 @@ end Comp;
 """
 
 
+# name of the nested instance: "s", and a name that contains every character of the names of the components inside it (what a
+# component is called must not decide which side of it a connector is on)
+INST = "s"
+INST_NAMES = ("s", "a01s")
+
+
 def model_text(ncomp, ntop, top_clauses, sub=None):
     """sub: None or (n inner components, clauses inside Sub using 'a<k>.p/n' and 'ext1'/'ext2')"""
     txt = HEADER
@@ -31,7 +37,7 @@ def model_text(ncomp, ntop, top_clauses, sub=None):
             "".join("  connect(%s, %s);\n" % c for c in sub[1]) + "end Sub;\n"
     txt += "model Top\n" + "".join("  Comp c%d;\n" % k for k in range(ncomp)) + "".join("  Pin q%d;\n" % k for k in range(ntop))
     if sub:
-        txt += "  Sub s;\n"
+        txt += "  Sub %s;\n" % INST
     txt += "equation\n" + "".join("  connect(%s, %s);\n" % c for c in top_clauses) + "end Top;\n"
     return txt
 
@@ -39,7 +45,7 @@ def model_text(ncomp, ntop, top_clauses, sub=None):
 def connectors(ncomp, ntop, sub):
     out = ["c%d.%s" % (k, s) for k in range(ncomp) for s in "pn"] + ["q%d" % k for k in range(ntop)]
     if sub:
-        out += ["s.a%d.%s" % (k, s) for k in range(sub[0]) for s in "pn"] + ["s.ext1", "s.ext2"]
+        out += ["%s.a%d.%s" % (INST, k, s) for k in range(sub[0]) for s in "pn"] + [INST + ".ext1", INST + ".ext2"]
     return out
 
 
@@ -51,7 +57,7 @@ def reference_rows(index, ncomp, ntop, top_clauses, sub):
         clauses.append(((l, "." in l), (r, "." in r)))
     if sub:
         for l, r in sub[1]:
-            clauses.append((("s." + l, "." in l), ("s." + r, "." in r)))
+            clauses.append(((INST + "." + l, "." in l), (INST + "." + r, "." in r)))
     parent = {}
 
     def find(x):
@@ -367,7 +373,15 @@ def main():
         if bad:
             failures.append({"class": "graph", "input": {"model": txt, "flatten": "Top"}, "observed": bad,
                              "expected": "flat equations with the solution space of the connection-set semantics"})
-    for ncomp, ntop, clauses, sub in cases(tier, seed):
+    global INST
+    all_cases = []
+    for k_, (ncomp, ntop, clauses, sub) in enumerate(cases(tier, seed)):
+        all_cases.append(("s", ncomp, ntop, clauses, sub))
+        if sub and (k_ < 8 or k_ % 4 == 0):
+            ren = lambda e: INST_NAMES[1] + e[1:] if e.startswith("s.") else e
+            all_cases.append((INST_NAMES[1], ncomp, ntop, [(ren(l), ren(r)) for l, r in clauses], sub))
+    for inst, ncomp, ntop, clauses, sub in all_cases:
+        INST = inst
         n += 1
         seen.add(json.dumps([ncomp, ntop, clauses, sub]))
         try:
